@@ -281,6 +281,54 @@ func ruleTransientGaps(c *Ctx, fn *ssa.Function, nVal, errVal ssa.Value, rule1, 
 			if isTimeoutText(f.Cond) && !f.Val {
 				notTimeout = true
 			}
+			// `r := err == io.EOF || timeout(err)` (an expanded predicate helper) found false: the value
+			// false can only come over the edge that carries the second test, reached when the first failed
+			{
+				cv, val := f.Cond, f.Val
+				if u, ok := cv.(*ssa.UnOp); ok && u.Op == token.NOT {
+					cv, val = u.X, !val
+				}
+				if phi, ok := cv.(*ssa.Phi); ok && !val {
+					ne, nt, good := false, false, true
+					for i, e := range phi.Edges {
+						if b, isC := constBool(e); isC {
+							if !b {
+								good = false
+							}
+							continue
+						}
+						switch {
+						case isTimeoutText(e):
+							nt = true
+						default:
+							if is, op := isEOFNeq(e); is && op == token.EQL {
+								ne = true
+							} else {
+								good = false
+							}
+						}
+						for _, pf := range dominatingFacts(phi.Block().Preds[i]) {
+							if is, op := isEOFNeq(pf.Cond); is && ((op == token.NEQ && pf.Val) || (op == token.EQL && !pf.Val)) {
+								ne = true
+							}
+							if isTimeoutText(pf.Cond) && !pf.Val {
+								nt = true
+							}
+						}
+						// the edge itself may be the false side of the first test
+						pred := phi.Block().Preds[i]
+						if ifi, ok := lastInstr(pred).(*ssa.If); ok && len(pred.Succs) == 2 {
+							side := pred.Succs[0] == phi.Block()
+							if is, op := isEOFNeq(ifi.Cond); is && ((op == token.NEQ && side) || (op == token.EQL && !side)) {
+								ne = true
+							}
+						}
+					}
+					if good && ne && nt {
+						notEOF, notTimeout = true, true
+					}
+				}
+			}
 			if bo, ok := f.Cond.(*ssa.BinOp); ok {
 				if isCfgCall(bo.X, "TimeoutOnEOF") && isZero(bo.Y) && ((bo.Op == token.EQL && f.Val) || (bo.Op == token.NEQ && !f.Val)) {
 					kind = "zero-tolerance"
@@ -351,12 +399,52 @@ func ruleTransientGaps(c *Ctx, fn *ssa.Function, nVal, errVal ssa.Value, rule1, 
 		if !onErr {
 			return
 		}
-		retryable := onEveryPath(call.Block(), func(f EdgeFact) bool {
-			if is, op := isEOFNeq(f.Cond); is && ((op == token.EQL && f.Val) || (op == token.NEQ && !f.Val)) {
+		// cond has truth value val means "the error is end of file or a time-out": the two tests
+		// themselves, their negations, and a boolean built from them (`r := a || b`)
+		var retryCond func(v ssa.Value, val bool, depth int) bool
+		retryCond = func(v ssa.Value, val bool, depth int) bool {
+			if depth > 4 {
+				return false
+			}
+			if is, op := isEOFNeq(v); is {
+				return (op == token.EQL && val) || (op == token.NEQ && !val)
+			}
+			if isTimeoutText(v) {
+				return val
+			}
+			switch x := v.(type) {
+			case *ssa.UnOp:
+				if x.Op == token.NOT {
+					return retryCond(x.X, !val, depth+1)
+				}
+			case *ssa.Phi:
+				if !val {
+					return false
+				}
+				for i, e := range x.Edges {
+					if b, isC := constBool(e); isC {
+						// `true` on the edge taken when one of the tests succeeded
+						pred, child := x.Block().Preds[i], x.Block()
+						for k := 0; k < 3; k++ {
+							if _, isJump := lastInstr(pred).(*ssa.Jump); isJump && len(pred.Preds) == 1 {
+								pred, child = pred.Preds[0], pred
+							}
+						}
+						ifi, ok := lastInstr(pred).(*ssa.If)
+						if !b || !ok || len(pred.Succs) != 2 || !retryCond(ifi.Cond, pred.Succs[0] == child, depth+1) {
+							return false
+						}
+						continue
+					}
+					if !retryCond(e, true, depth+1) {
+						return false
+					}
+				}
 				return true
 			}
-			return isTimeoutText(f.Cond) && f.Val
-		})
+			return false
+		}
+		retryable := onEveryPath(call.Block(), func(f EdgeFact) bool { return retryCond(f.Cond, f.Val, 0) })
 		c.Check(retryable, rule1, "Handle:retry-only-eof-or-timeout", call.Pos(), "the pause before a retry is reached only with an end-of-file or time-out result",
 			"the handler can pause and retry after a read error that is neither end of file nor a time-out: such an error must stop it")
 	})
